@@ -247,6 +247,15 @@ fn random_sequence(rng: &mut Rng) -> Vec<Req> {
         if !seq.is_empty() && rng.chance(0.15) {
             let prev: Req = *rng.pick(&seq);
             seq.push((prev.0, if rng.chance(0.5) { prev.1 } else { dir }));
+        } else if !seq.is_empty() && rng.chance(0.2) {
+            // the largest prime factor of an earlier request (a Rader/Bluestein base the planner has already met inside a plan)
+            let prev: Req = *rng.pick(&seq);
+            let lp = crate::cases::largest_prime_factor(prev.0.max(2));
+            seq.push((lp.max(2), dir));
+        } else if rng.chance(0.15) {
+            // a product of two "hard" primes
+            let hard = [11usize, 13, 17, 37, 41, 43, 53, 59, 61, 83];
+            seq.push((*rng.pick(&hard) * *rng.pick(&hard), dir));
         } else {
             seq.push((n, dir));
         }
@@ -292,7 +301,7 @@ fn run_type<T: Elem>(st: &mut Stats, args: &Args) {
         st.set_distinct(&format!("{}|exh{}", T::NAME, i));
     }
     // random sequences over divisor lattices
-    let n_random = args.get_usize("random").unwrap_or(if t { 6000 } else { 400 });
+    let n_random = args.get_usize("random").unwrap_or(if t { 60000 } else { 1200 });
     let mut rng = Rng::new(mix(&[args.seed, 0xC10]));
     for i in 0..n_random {
         let seq = random_sequence(&mut rng);
